@@ -379,6 +379,7 @@ func (h *harness) envAction() {
 	case 1:
 		if p := h.pickPool("toggle_target"); p != nil {
 			p.Spec.Disabled = !p.Spec.Disabled
+			p.Generation++ // the API server bumps metadata.generation on every spec change
 			h.api.adminUpdate(p)
 			r.Op("admin sets disabled=%v on %s", p.Spec.Disabled, poolLine(p))
 			if p.Spec.Disabled {
@@ -434,6 +435,7 @@ func (h *harness) envAction() {
 				return
 			}
 			p.Spec.NATOutgoing = !p.Spec.NATOutgoing
+			p.Generation++
 			h.api.adminUpdate(p)
 			r.Op("admin edits an unrelated field of %s", poolLine(p))
 			h.afterAPIChange()
